@@ -15,7 +15,9 @@
 
   Every function follows the Rust text statement by statement; the capacity
   function and the lock targets / statement order of `==` and `concat` are
-  *generated* from the source (Generated/Capacity, Generated/ListLocks).
+  *generated* from the source (Generated/Capacity, Generated/ListLocks), and so
+  are the early-return / growth conditions of `get`, `swap`, `ErasedList::eq`
+  and `reserve` (Generated/ListGuards).
 
   Element size `sz` (`vtable.size()`) is a parameter of a run: 0 for
   zero-sized element types (capacity `usize::MAX`, nothing allocated).
@@ -27,6 +29,7 @@
 import RotoV.Model.ListBase
 import RotoV.Generated.Capacity
 import RotoV.Generated.ListLocks
+import RotoV.Generated.ListGuards
 
 namespace RotoV.ListM
 open RotoV
@@ -58,6 +61,9 @@ structure RawList where
   rc : Nat
   deriving DecidableEq, Repr, Inhabited
 
+/-- what the generated guards see of a `RawList` -/
+def RawList.view (l : RawList) : RawView := { len := l.len, capacity := l.cap }
+
 /-- `compute_capacity` (generated), debug profile -/
 def computeCapacity (sz req : Nat) : E Nat :=
   liftRes (Gen.Capacity.compute_capacity true sz req)
@@ -71,7 +77,7 @@ def reserve (sz : Nat) (l : RawList) (added : Nat) : E RawList :=
     | some req =>
       match computeCapacity sz req with
       | .error f => .error f
-      | .ok nc => .ok (if nc > l.cap then { l with cap := nc } else l)
+      | .ok nc => .ok (if Gen.ListGuards.reserve_grows l.view nc then { l with cap := nc } else l)
 
 /-- `RawList::with_capacity(0, vtable)` = `RawList::new` -/
 def newRaw (sz : Nat) : E RawList :=
@@ -88,7 +94,7 @@ def rawPush (sz : Nat) (l : RawList) (v : Nat) : E RawList :=
 
 /-- `RawList::get` followed by the read through the returned pointer -/
 def rawGet (l : RawList) (i : Nat) : E (Option Nat) :=
-  if i ≥ l.len then .ok none
+  if Gen.ListGuards.get_oob l.view i then .ok none
   else
     match l.elems[i]? with
     | some v => .ok (some v)
@@ -123,8 +129,7 @@ def swapElems (xs : List Nat) (i j : Nat) : List Nat :=
 
 /-- `RawList::swap` -/
 def rawSwap (l : RawList) (i j : Nat) : RawList :=
-  if i ≥ l.len ∨ j ≥ l.len then l
-  else if i = j then l
+  if Gen.ListGuards.swap_noop l.view i j then l
   else { l with elems := swapElems l.elems i j }
 
 /-- reading `other[0 .. other.len)` (no bounds check in the Rust text) -/
@@ -160,7 +165,7 @@ def eqLoop (a b : RawList) : Nat → Nat → E Bool
 
 /-- `ErasedList::eq` under both locks -/
 def rawEqErased (a b : RawList) : E Bool :=
-  if a.len ≠ b.len then .ok false else eqLoop a b 0 a.len
+  if Gen.ListGuards.eq_len_differs a.view b.view then .ok false else eqLoop a b 0 a.len
 
 /-- `List<T>::eq` under both locks: slice equality -/
 def rawEqTyped (a b : RawList) : E Bool :=
